@@ -45,6 +45,9 @@ pub struct S {
     /// every child runs timers of its own (an interval_with and an interval, period 3): they
     /// must not hold the child once its parent has let go of it
     pub child_timers: bool,
+    /// the root takes its children from a *handler* (command messages the driver sends first)
+    /// instead of from started()
+    pub late_registration: bool,
 }
 
 const PANIC_MSG: u32 = 700;
@@ -83,6 +86,7 @@ impl Scene for S {
     fn setup(&self, exec: &Exec) {
         // spawn bottom-up so that every parent finds its children's addresses in the store
         let mut addrs: Vec<Option<Addr<P>>> = vec![None; self.nodes.len() + 1];
+        let mut late_actions: Vec<Action> = vec![];
         let mut order: Vec<&Node> = self.nodes.iter().collect();
         order.sort_by_key(|n| std::cmp::Reverse(depth(&self.nodes, n.role)));
         for n in order {
@@ -99,6 +103,9 @@ impl Scene for S {
                 actions.push(Action::IntervalWith { timer: 8, period: 3 });
                 actions.push(Action::Interval { timer: 9, period: 3 });
             }
+            if self.late_registration && n.role == 0 {
+                late_actions = std::mem::take(&mut actions);
+            }
             crate::world::W.with(|w| w.borrow_mut().roles[n.role as usize].started_actions = actions);
             let cfg = SpawnCfg {
                 mailbox: self.mailbox,
@@ -111,6 +118,9 @@ impl Scene for S {
         let root = addrs[0].clone().unwrap();
         crate::world::W.with(|w| w.borrow_mut().default_role[0] = 0);
         let mut ops: Vec<Op> = vec![];
+        for (k, a) in late_actions.iter().enumerate() {
+            ops.push(Op::Cmd(H::Addr(0), 680 + k as u32, *a));
+        }
         if self.restart_root {
             ops.push(Op::Restart(H::Addr(0)));
         }
@@ -371,7 +381,7 @@ fn base_cases(tier: Tier) -> Vec<Case> {
                         desc: format!("children tree={} cause={:?} bcasts={:?} mailbox={}", tree_name(tree), cause, bc, mb.name()),
                         exec: ExecCfg { horizon: 30, cancel: if let Cause::Cancel(j) = cause { Some((root_spawn_index(tree), j)) } else { None }, ..ExecCfg::default() },
                         bound: if tree.len() >= 4 { Some(if tier == Tier::Quick { 3 } else { 5 }) } else if big { Some(if tier == Tier::Quick { 4 } else { 7 }) } else { None },
-                        scene: Box::new(S { nodes: tree.clone(), cause, bcasts: bc.clone(), mailbox: mb, pid: "C16", restart_root: false, slow_stop: None, child_timers: false }),
+                        scene: Box::new(S { nodes: tree.clone(), cause, bcasts: bc.clone(), mailbox: mb, pid: "C16", restart_root: false, slow_stop: None, child_timers: false, late_registration: false }),
                     });
                     // parents whose stopped() takes a while and says goodbye to the children
                     if matches!(cause, Cause::StopClient | Cause::LastDrop) && bc.len() <= 1 {
@@ -379,7 +389,16 @@ fn base_cases(tier: Tier) -> Vec<Case> {
                             desc: format!("children [slow stopped() with a goodbye broadcast] tree={} cause={:?} bcasts={:?} mailbox={}", tree_name(tree), cause, bc, mb.name()),
                             exec: ExecCfg { horizon: 30, ..ExecCfg::default() },
                             bound: if tree.len() >= 4 { Some(if tier == Tier::Quick { 3 } else { 5 }) } else if big { Some(if tier == Tier::Quick { 4 } else { 7 }) } else { None },
-                            scene: Box::new(S { nodes: tree.clone(), cause, bcasts: bc.clone(), mailbox: mb, pid: "C16", restart_root: false, slow_stop: Some((1, 650)), child_timers: false }),
+                            scene: Box::new(S { nodes: tree.clone(), cause, bcasts: bc.clone(), mailbox: mb, pid: "C16", restart_root: false, slow_stop: Some((1, 650)), child_timers: false, late_registration: false }),
+                        });
+                    }
+                    // children taken from a handler instead of from started()
+                    if matches!(cause, Cause::StopClient | Cause::LastDrop | Cause::HandlerPanic(_)) && bc.len() <= 2 && tree.len() <= 3 && tree.iter().all(|n| n.parent.is_none() || n.parent == Some(0)) {
+                        v.push(Case {
+                            desc: format!("children [registered from a handler] tree={} cause={:?} bcasts={:?} mailbox={}", tree_name(tree), cause, bc, mb.name()),
+                            exec: ExecCfg { horizon: 30, ..ExecCfg::default() },
+                            bound: if big { Some(if tier == Tier::Quick { 3 } else { 6 }) } else { None },
+                            scene: Box::new(S { nodes: tree.clone(), cause, bcasts: bc.clone(), mailbox: mb, pid: "C16", restart_root: false, slow_stop: None, child_timers: false, late_registration: true }),
                         });
                     }
                     // children that run timers of their own
@@ -388,7 +407,7 @@ fn base_cases(tier: Tier) -> Vec<Case> {
                             desc: format!("children [children run timers] tree={} cause={:?} bcasts={:?} mailbox={}", tree_name(tree), cause, bc, mb.name()),
                             exec: ExecCfg { horizon: 5, ..ExecCfg::default() },
                             bound: Some(if tier == Tier::Quick { 4 } else { 7 }),
-                            scene: Box::new(S { nodes: tree.clone(), cause, bcasts: bc.clone(), mailbox: mb, pid: "C16", restart_root: false, slow_stop: None, child_timers: true }),
+                            scene: Box::new(S { nodes: tree.clone(), cause, bcasts: bc.clone(), mailbox: mb, pid: "C16", restart_root: false, slow_stop: None, child_timers: true, late_registration: false }),
                         });
                     }
                     // the same with a restart of the root first
@@ -397,7 +416,7 @@ fn base_cases(tier: Tier) -> Vec<Case> {
                             desc: format!("children [root restarted first] tree={} cause={:?} bcasts={:?} mailbox={}", tree_name(tree), cause, bc, mb.name()),
                             exec: ExecCfg { horizon: 30, ..ExecCfg::default() },
                             bound: if big { Some(if tier == Tier::Quick { 4 } else { 7 }) } else { None },
-                            scene: Box::new(S { nodes: tree.clone(), cause, bcasts: bc.clone(), mailbox: mb, pid: "C16", restart_root: true, slow_stop: None, child_timers: false }),
+                            scene: Box::new(S { nodes: tree.clone(), cause, bcasts: bc.clone(), mailbox: mb, pid: "C16", restart_root: true, slow_stop: None, child_timers: false, late_registration: false }),
                         });
                     }
                 }
